@@ -42,6 +42,10 @@ def parseTy (j : Json) : Ty :=
             next := parseSlot (str j "next"), bool := parseSlot (str j "bool"), len := parseSlot (str j "len") }
   | _ => .builtin (str j "builtin")
 
+def parseClassSlots (j : Json) : ClassSlots := (asArr j).map fun e => (str e "n", parseSlot (str e "s"))
+
+def parseMroSlots (j : Json) : List ClassSlots := (arr j "mro").map parseClassSlots
+
 def evStr : Ev → String
   | .getitem => "__getitem__" | .iter => "__iter__" | .next => "__next__"
   | .bool => "__bool__" | .len => "__len__" | .get id => "__get__:" ++ toString id
@@ -101,8 +105,13 @@ def handle (j : Json) : Json :=
     let (r, ev) := pyBool cfg (parseTy (obj j "ty")) (bool j "safe")
     jobj [("reached", jbool r), ("events", jarr (ev.map (jstr ∘ evStr)))]
   | "builtinbool" => jbool (hasBuiltinBool cfg (parseTy (obj j "ty")))
+  | "builtinboolmro" => jbool (hasBuiltinBoolMro cfg (parseMroSlots j))
+  | "boolmro" =>
+    let (r, ev) := pyBoolMro cfg (parseMroSlots j) (bool j "safe")
+    jobj [("reached", jbool r), ("events", jarr (ev.map (jstr ∘ evStr)))]
   | "config" => jobj [("boolLookupOrder", jarr (cfg.boolLookupOrder.map jstr)),
-                      ("builtinMethodTypes", jarr (cfg.builtinMethodTypes.map jstr))]
+                      ("builtinMethodTypes", jarr (cfg.builtinMethodTypes.map jstr)),
+                      ("boolWalkMroOuter", jbool cfg.boolWalkMroOuter)]
   | op => jobj [("error", jstr ("unknown op " ++ op))]
 
 def main : IO Unit := Proto.run handle
